@@ -193,7 +193,7 @@ def parse_prefix(toks, names):
 
 def run(tier, seed, broken_proof=False):
     rng = random.Random(seed + 1010)
-    count = 500 if tier == "quick" else 5000
+    count = 1500 if tier == "quick" else 8000
     jobs = []
     for i in range(count):
         r = rng.random()
